@@ -57,10 +57,10 @@ impl STpl {
             let mut s = String::new();
             for p in l {
                 match p {
-                    SPart::Lit(x) => s.push_str(x),
+                    SPart::Lit(x) => s.push_str(&crate::model::expand_tabs(x, st.tab_width)),
                     SPart::Sgr => s.push_str("\x1b[1m"),
-                    SPart::Msg => s.push_str(&st.msg),
-                    SPart::Prefix => s.push_str(&st.prefix),
+                    SPart::Msg => s.push_str(&crate::model::expand_tabs(&st.msg, st.tab_width)),
+                    SPart::Prefix => s.push_str(&crate::model::expand_tabs(&st.prefix, st.tab_width)),
                     SPart::Pos => s.push_str(&st.pos.to_string()),
                     SPart::Len => s.push_str(&len.to_string()),
                 }
@@ -89,11 +89,13 @@ pub struct BarState {
     pub prefix: String,
     pub status: Status,
     pub tpl: STpl,
+    /// the bar's tab width (TABs in template literals, message and prefix become this many blanks)
+    pub tab_width: usize,
 }
 
 impl BarState {
     pub fn new(len: Option<u64>, tpl: STpl) -> Self {
-        BarState { pos: 0, len, msg: String::new(), prefix: String::new(), status: Status::InProgress, tpl }
+        BarState { pos: 0, len, msg: String::new(), prefix: String::new(), status: Status::InProgress, tpl, tab_width: 8 }
     }
     /// What a draw of this bar paints now.
     pub fn frame(&self) -> Vec<String> {
@@ -181,12 +183,13 @@ pub fn multi_text(cols: usize) -> BoxedStrategy<String> {
 
 pub fn stpl_strategy() -> BoxedStrategy<STpl> {
     let part = prop_oneof![
-        3 => "[a-z:| ]{1,5}".prop_map(SPart::Lit),
-        1 => Just(SPart::Sgr),
-        4 => Just(SPart::Msg),
-        2 => Just(SPart::Prefix),
-        2 => Just(SPart::Pos),
-        1 => Just(SPart::Len),
+        6 => "[a-z:| ]{1,5}".prop_map(SPart::Lit),
+        1 => prop_oneof![Just("\t"), Just("a\tb"), Just(":\t")].prop_map(|s| SPart::Lit(s.to_string())),
+        2 => Just(SPart::Sgr),
+        8 => Just(SPart::Msg),
+        4 => Just(SPart::Prefix),
+        4 => Just(SPart::Pos),
+        2 => Just(SPart::Len),
     ];
     let line = proptest::collection::vec(part, 0..4);
     proptest::collection::vec(line, 1..4).prop_map(|lines| STpl { lines }).boxed()
